@@ -149,6 +149,11 @@ class OrderTaint:
                 k = _join(k, self.kind(fi, v, env))
             return k
         if isinstance(e, ast.BinOp) and isinstance(e.op, (ast.BitOr, ast.BitAnd, ast.Sub, ast.BitXor)):
+            # set algebra on dict views (d.keys() - other.keys()) yields a plain set: hash order
+            def is_view(x):
+                return isinstance(x, ast.Call) and isinstance(x.func, ast.Attribute) and x.func.attr in ("keys", "items") and not x.args
+            if is_view(e.left) or is_view(e.right):
+                return U
             return _join(self.kind(fi, e.left, env), self.kind(fi, e.right, env)) and U
         if isinstance(e, ast.BinOp) and isinstance(e.op, ast.Add):
             a, b = self.kind(fi, e.left, env), self.kind(fi, e.right, env)
@@ -156,6 +161,10 @@ class OrderTaint:
         if isinstance(e, ast.Call):
             d = prog.dotted(fi.module, e.func) if isinstance(e.func, (ast.Name, ast.Attribute)) else None
             if d in ("set", "frozenset"):
+                return U
+            if isinstance(e.func, ast.Attribute) and e.func.attr in ("difference", "union", "intersection", "symmetric_difference") and \
+                    (self.kind(fi, e.func.value, env) == U or (isinstance(e.func.value, ast.Call) and isinstance(e.func.value.func, ast.Attribute)
+                                                                 and e.func.value.func.attr in ("keys", "items"))):
                 return U
             if d == "sorted":
                 if _total_order_sort(e):
@@ -411,7 +420,7 @@ class Effects:
             nodes = list(own_nodes(fi.node))
             for d in fi.decorators:
                 dd = prog.dotted(fi.module, d.func if isinstance(d, ast.Call) else d)
-                if dd in CACHE_DECORATORS:
+                if dd in CACHE_DECORATORS and common.may_return_nodes(prog, fi):
                     self.findings.append(Finding("effect", fi, d, f"@{dd} memoises results across scans (returned nodes would be shared between trees)",
                                                  f"{fi.fq}/cache-decorator"))
             a = fi.node.args
